@@ -84,7 +84,8 @@ def path_render(ctx, job, box):
     checks = [run.check(got == expect, 'display() output %r differs from the reference rendering %r' % (got, expect))]
     same_grid = grid_same_except(L, pre, post, cols, lines, set())
     rest = fields_same(L, pre, post, except_=('buffer',))
-    checks.append(run.check(bool_and(same_grid, rest), 'display() changed the observable state'))
+    checks.append(run.check(bool_and(bool_and(same_grid, rest), hidden_same(L, pre, post, cols, lines)),
+                            'display() changed the observable state'))
     return checks
 
 
